@@ -54,6 +54,15 @@ def gen_contribs(rng, n, pathvars, rich):
     if "XP" in pathvars and rng.random() < 0.5:
         acts.append({"a": "prepend", "var": "XP", "own": True, "val": rng.choice(["/x", "", "/share/x"]),
                      "append": rng.random() < 0.5})
+    if rng.random() < 0.3:
+        # one envPrepend / envAppend whose value holds several delimiter-separated pieces
+        var = rng.choice(sorted(pathvars))
+        more = [{"own": True, "val": "/scripts"}]
+        if rng.random() < 0.3:
+            more.append({"own": True, "val": "/m2"})
+        if rich and rng.random() < 0.25:
+            more.append({"own": False, "val": "/opt/%s/multi" % n})
+        acts.append({"a": "prepend", "var": var, "own": True, "val": "/mbin", "append": rng.random() < 0.5, "more": more})
     if rng.random() < 0.5:
         acts.append({"a": "set", "var": n.upper() + "_X", "own": True, "val": rng.choice(["/x", "", "/etc/x.cfg"])})
     if rich and rng.random() < 0.15:
@@ -88,7 +97,9 @@ def gen_graph(rng, cyc=False, rich=True, nmin=3, nmax=7):
                 p = 0.45 if fwd_edge else (0.12 if cyc else 0.0)
                 if rng.random() < p:
                     dep = {"a": "dep", "name": m, "opt": rng.random() < 0.34, "just": rng.random() < 0.25,
-                           "spec": gen_spec(rng, pool)}
+                           "spec": gen_spec(rng, pool), "tags": []}
+                    if rich and rng.random() < 0.15:      # the line's own -t tag(s): setupRequired(m -t beta …)
+                        dep["tags"] = rng.choice([["beta"], ["beta"], ["current"], ["beta", "current"]])
                     acts.insert(rng.randint(0, len(acts)), dep)
             if rich and rng.random() < 0.04:
                 acts.insert(rng.randint(0, len(acts)), {"a": "dep", "name": "zz", "opt": rng.random() < 0.6, "just": False,
@@ -108,8 +119,8 @@ def gen_graph(rng, cyc=False, rich=True, nmin=3, nmax=7):
             sub = "Linux/%s%s/%s" % (n, " dir" if spaces else "", v)
             decls.append({"name": n, "ver": v, "sub": sub, "table": table})
         if rng.random() < 0.85:
-            cur[n] = rng.choice(vs)
-        if rng.random() < 0.3:
+            cur[n] = rng.choice(vs) if (not rich or rng.random() > 0.03) else "9"      # rarely: a tag on an undeclared version
+        if rng.random() < 0.4:
             beta[n] = rng.choice(vs)
     return {"names": names, "pool": pool, "pathvars": pathvars, "space_root": space_root,
             "decls": decls, "tags": {"current": cur, "beta": beta}, "cyc": cyc}
@@ -131,16 +142,26 @@ def gen_request(rng, g, op=None, plain=False):
     req = {"op": op or ("unsetup" if rng.random() < 0.12 else "setup"), "name": name, "ver": ver,
            "keep": (not plain) and rng.random() < 0.28,
            "max_depth": -1 if plain else rng.choice([-1, -1, -1, 0, 1, 2]),
-           "tags": ["beta"] if (not plain and rng.random() < 0.1) else []}
+           "tags": ["beta"] if (not plain and rng.random() < 0.12) else []}
+    beta = g["tags"].get("beta", {})
+    if req["tags"] and beta and rng.random() < 0.6:
+        # the version acceptance loop: a tag placed before `version` in the VRO answers with one version,
+        # the command line names another one
+        req["name"] = rng.choice(sorted(beta))
+        vs = [d["ver"] for d in g["decls"] if d["name"] == req["name"]]
+        req["ver"] = {"v": rng.choice(vs)}
+    if req["tags"] and rng.random() < 0.25:
+        req["tags"] = rng.choice([["beta", "current"], ["current", "beta"], ["current"]])
     if req["op"] == "unsetup":
-        req["ver"] = None
+        # `unsetup p v`: the version is only compared with the set-up one (a warning)
+        req["ver"] = {"v": rng.choice(vs)} if vs and rng.random() < 0.2 else None
         req["tags"] = []
     return req
 
 
 def gen_prior(rng, g, mode=None):
     """Prior environment as raw strings (`$S` = stack root).  Returns (env, mode)."""
-    mode = mode or rng.choice(["clean", "clean", "dups", "empties", "libp_set", "preset", "contained", "delim"])
+    mode = mode or rng.choice(["clean", "clean", "dups", "empties", "libp_set", "preset", "contained", "delim", "stale"])
     env = {"PATH": BASE_PATH}
     d = rng.choice(g["decls"])
     if mode == "dups":
@@ -155,10 +176,42 @@ def gen_prior(rng, g, mode=None):
         env[d["name"].upper() + "_X"] = "old value"
     elif mode == "contained":
         env["PATH"] = "/usr/bin:$S/%s/bin:/bin" % d["sub"]
+    elif mode == "stale":
+        # a record eups wrote for a version that has been undeclared since (findSetupProduct finds nothing)
+        n = d["name"]
+        env["SETUP_" + n.upper()] = "%s 7 -f Linux -Z $SZ" % n
+        env[n.upper() + "_DIR"] = "$S/Linux/%s/7" % n
+        env["PATH"] = "$S/Linux/%s/7/bin:%s" % (n, BASE_PATH)
     elif mode == "delim" and "XP" in g["pathvars"]:
         dl = g["pathvars"]["XP"]
         env["XP"] = dl.join(["/q", "/r", "/q"])
     return env, mode
+
+
+def small_graphs():
+    """Every graph over names a, b, c x versions 1, 2 (current = 1) in which each of the six possible dependency
+    lines a1->b, a1->c, a2->b, a2->c, b1->c, b2->c is one of: absent, required bare, required `2`, optional `-j 1`
+    (4^6 = 4096 graphs), each with one fixed history that switches versions, uses keep, max-depth and unsetup."""
+    import itertools
+    choices = [None,
+               {"opt": False, "just": False, "spec": {"kind": "bare"}},
+               {"opt": False, "just": False, "spec": {"kind": "explicit", "v": "2"}},
+               {"opt": True, "just": True, "spec": {"kind": "explicit", "v": "1"}}]
+    lines = [("a", "1", "b"), ("a", "1", "c"), ("a", "2", "b"), ("a", "2", "c"), ("b", "1", "c"), ("b", "2", "c")]
+    hist = [{"op": "setup", "name": "a", "ver": None, "keep": False, "max_depth": -1, "tags": [], "inexact": False},
+            {"op": "setup", "name": "a", "ver": {"v": "2"}, "keep": False, "max_depth": 1, "tags": [], "inexact": False},
+            {"op": "setup", "name": "b", "ver": {"v": "2"}, "keep": True, "max_depth": -1, "tags": [], "inexact": False},
+            {"op": "unsetup", "name": "a", "ver": None, "keep": False, "max_depth": -1, "tags": [], "inexact": False}]
+    for combo in itertools.product(range(4), repeat=6):
+        tables = {(n, v): [{"a": "prepend", "var": "PATH", "own": True, "val": "/bin", "append": False}]
+                  for n in "abc" for v in "12"}
+        for (n, v, m), c in zip(lines, combo):
+            if choices[c] is not None:
+                tables[(n, v)].append(dict(choices[c], a="dep", name=m))
+        g = {"names": ["a", "b", "c"], "pool": ["1", "2"], "pathvars": {"PATH": ":", "LIBP": ":"}, "space_root": False,
+             "decls": [{"name": n, "ver": v, "sub": "Linux/%s/%s" % (n, v), "table": t} for (n, v), t in sorted(tables.items())],
+             "tags": {"current": {"a": "1", "b": "1", "c": "1"}, "beta": {}}, "cyc": False}
+        yield {"graph": g, "prior": {"PATH": BASE_PATH}, "prior_mode": "exhaustive", "history": [dict(h) for h in hist]}
 
 
 def gen_case(rng, cyc=None, nreq=None, plain=False):
@@ -168,9 +221,11 @@ def gen_case(rng, cyc=None, nreq=None, plain=False):
     prior, mode = gen_prior(rng, g, mode="clean" if rng.random() < 0.6 else None)
     inexact = rng.random() < 0.2
     hist = []
-    for _ in range(nreq or rng.randint(1, 5)):
+    n = nreq or rng.randint(1, 5)
+    flip = rng.randint(1, n - 1) if (n > 1 and not plain and rng.random() < 0.12) else None   # mixed setup types (D34)
+    for k in range(n):
         r = gen_request(rng, g, plain=plain)
-        r["inexact"] = inexact
+        r["inexact"] = inexact if (flip is None or k < flip) else not inexact
         hist.append(r)
     return {"graph": g, "prior": prior, "prior_mode": mode, "history": hist}
 
@@ -178,6 +233,11 @@ def gen_case(rng, cyc=None, nreq=None, plain=False):
 # ================================================================================================
 # graph helpers (used by the installer, the model-request builder and the oracles)
 # ================================================================================================
+
+def pvals(a):
+    """[(own?, text)] — the pieces of the value of an envPrepend / envAppend action, in order"""
+    return [(a["own"], a["val"])] + [(m["own"], m["val"]) for m in a.get("more", [])]
+
 
 def flat_table(table):
     """[(guard, act)] in table order"""
@@ -210,8 +270,10 @@ def spec_text(sp):
 
 def act_text(a, pathvars):
     if a["a"] == "prepend":
-        val = ("${PRODUCT_DIR}" if a["own"] else "") + a["val"]
         dl = pathvars.get(a["var"], ":")
+        val = dl.join(("${PRODUCT_DIR}" if o else "") + v for o, v in pvals(a))
+        if "," in val or " " in val:
+            val = '"%s"' % val
         third = "" if dl == ":" else ', "%s"' % dl
         return "%s(%s, %s%s)" % ("envAppend" if a["append"] else "envPrepend", a["var"], val, third)
     if a["a"] == "set":
@@ -219,7 +281,8 @@ def act_text(a, pathvars):
     if a["a"] == "alias":
         return "addAlias(%s, %s)" % (a["key"], a["val"])
     if a["a"] == "dep":
-        bits = [a["name"]] + (["-j"] if a["just"] else []) + ([spec_text(a["spec"])] if spec_text(a["spec"]) else [])
+        bits = [a["name"]] + (["-j"] if a["just"] else []) + [x for t in a.get("tags", []) for x in ("-t", t)] + \
+            ([spec_text(a["spec"])] if spec_text(a["spec"]) else [])
         return "%s(%s)" % ("setupOptional" if a["opt"] else "setupRequired", " ".join(bits))
     raise ValueError(a)
 
@@ -304,6 +367,10 @@ class G:
     def value(self, n, v, a):
         return (self.dir(n, v) if a["own"] else "") + a["val"]
 
+    def values(self, n, v, a):
+        """[(own?, string)] for every piece of a path action's value"""
+        return [(o, (self.dir(n, v) if o else "") + t) for o, t in pvals(a)]
+
 
 # ================================================================================================
 # implementation side
@@ -366,6 +433,13 @@ def ver_text(ver):
     return " || ".join("%s %s" % (op, v) for op, v in ver["e"])
 
 
+class _TooDeep(BaseException):
+    """Raised by the nesting counter once Eups.setup nests deeper than FUEL (the model is out of fuel there): the
+    request is compared on that fact only, so it is cut short instead of being left to hit the interpreter's
+    recursion limit over and over (each RecursionError is swallowed as a failed dependency; on graphs with many
+    optional lines that takes minutes).  Not an Exception, so `except Exception` in table.py lets it through."""
+
+
 def _do_request(S, ud, env, req):
     """Runs in a forked child: one command."""
     for k in list(os.environ):
@@ -384,6 +458,8 @@ def _do_request(S, ud, env, req):
         nest[0] += 1
         nest[1] = max(nest[1], nest[0])
         try:
+            if nest[0] > FUEL:
+                raise _TooDeep()
             return orig(self, *a, **k)
         finally:
             nest[0] -= 1
@@ -397,8 +473,11 @@ def _do_request(S, ud, env, req):
         out["vro"] = list(E.getPreferredTags())
         try:
             cmds = app.setup(req["name"], vname, prefTags=tags, eupsenv=E, fwd=(req["op"] == "setup"))
-            out["outcome"] = "notfound" if cmds == ["false"] else "ok"
+            out["outcome"] = "notfound" if "false" in cmds else "ok"
             out["cmds"] = cmds
+        except _TooDeep:
+            out["outcome"] = "deep"
+            out["cmds"] = None
         except Exception as e:  # noqa
             out["outcome"] = "raised"
             out["exc"] = type(e).__name__
@@ -431,7 +510,7 @@ def apply_cmds(env, cmds):
             k = c.split("()", 1)[0]
             defs[k] = c
         else:
-            raise common.InfraError("unrecognised command %r" % c)
+            undefs.append("?" + c)           # not a command the emitter is known to produce
     return env, defs, undefs
 
 
@@ -441,13 +520,19 @@ def run_history(case):
     root = common.scratch("setup")
     try:
         S, ud = install(case["graph"], root)
-        env = {k: v.replace("$S", S) for k, v in case["prior"].items()}
+        env = {k: v.replace("$SZ", S.replace(" ", "-+-")).replace("$S", S) for k, v in case["prior"].items()}
         outs = []
         for req in case["history"]:
             r = common.in_child(_do_request, S, ud, env, req, _timeout=60)
             if r[0] != "ok":
+                with open(os.path.join(common.WORK, "failed-request-%s.json" % common.digest(case_input(case))), "w") as f:
+                    json.dump({"case": case_input(case), "step": len(outs), "result": repr(r[:3])}, f)
                 outs.append({"outcome": "harness:" + str(r[:3])})
                 break
+            if r[1]["outcome"] == "deep":
+                outs.append({"before": strip(env, S), "outcome": "deep", "exc": None, "vro": r[1]["vro"], "nest": r[1]["nest"],
+                             "after": {}, "aliases": {}, "unaliased": [], "cmds": None})
+                break                    # the environment after such a request is not looked at: the history ends here
             r = r[1]
             res = {"before": strip(env, S), "outcome": r["outcome"], "exc": r["exc"], "vro": r["vro"], "nest": r["nest"],
                    "after": strip(r["env"], S), "aliases": r["aliases"], "unaliased": r["unaliased"],
@@ -544,7 +629,11 @@ def model_db(G_):
         for gd, a in G_.flat[(n, v)]:
             if a["a"] == "dep":
                 ver, vexpr = spec_model(a["spec"])
-                tb.append({"g": gd, "a": "dep", "name": a["name"], "opt": a["opt"], "just": a["just"], "ver": ver, "vexpr": vexpr})
+                tb.append({"g": gd, "a": "dep", "name": a["name"], "opt": a["opt"], "just": a["just"], "ver": ver,
+                           "vexpr": vexpr, "tags": list(a.get("tags", []))})
+            elif a["a"] == "prepend":
+                tb.append({"g": gd, "a": "prepend", "var": a["var"], "append": a["append"],
+                           "vals": [{"own": o, "val": t} for o, t in pvals(a)]})
             else:
                 x = dict(a)
                 x["g"] = gd
@@ -625,9 +714,10 @@ def missing_contribs(G_, env, exact):
         if (n, v) not in G_.decl:
             continue
         for a in G_.acts(n, v, exact):
-            if a["a"] == "prepend" and a["own"]:
-                if G_.value(n, v, a) not in env["paths"].get(a["var"], []):
-                    out.append((n, v, "%s lacks %s" % (a["var"], G_.value(n, v, a))))
+            if a["a"] == "prepend":
+                for o, x in G_.values(n, v, a):
+                    if o and x not in env["paths"].get(a["var"], []):
+                        out.append((n, v, "%s lacks %s" % (a["var"], x)))
             elif a["a"] == "set" and a["own"] and a["val"] != "":
                 if env["vars"].get(a["var"]) != G_.value(n, v, a):
                     out.append((n, v, "%s != %s" % (a["var"], G_.value(n, v, a))))
@@ -659,11 +749,15 @@ def vmatch(v, e):
     return any(ops[op](vkey(v), vkey(w)) for op, w in e)
 
 
-def designated(G_, name, ver, vexpr, tags=("current",)):
+def designated(G_, name, ver, vexpr, tags=("current",), line_tags=()):
     """The version the default resolution order designates for a request taken on its own: an expression
     -> the highest declared version satisfying it; an explicit version -> that version if declared, else the
     highest one satisfying an accompanying [expr]; no version -> the tagged version.  None = cannot be resolved."""
     vs = G_.versions(name)
+    for t in line_tags:            # the line's own -t tags stand in front of the whole VRO
+        v = G_.g["tags"].get(t, {}).get(name)
+        if v in vs:
+            return v
     if ver is not None and "e" in ver:
         vexpr = ver["e"]
         c = [v for v in vs if vmatch(v, vexpr)]
@@ -687,18 +781,18 @@ def closure(G_, name, ver, exact):
     """(set of (name, version) | None when the request fails, conflict-free?) — the dependency closure of the
     request: required dependencies, optional ones that can be resolved (together with everything they
     require), honouring -j; computed on an acyclic name graph only."""
-    chosen = {}
+    asked = {}                 # name -> versions requested along the traversal (failed attempts included)
     conflict = [False]
 
-    def visit(n, vr, vx, norec, acc):
-        v = designated(G_, n, vr, vx)
+    def visit(n, vr, vx, norec, acc, ltags=()):
+        v = designated(G_, n, vr, vx, line_tags=ltags)
         if v is None:
             return False
+        asked.setdefault(n, set()).add(v)
+        if len(asked[n]) > 1:
+            conflict[0] = True
         if (n, v) in acc:
             return True
-        for (m, w) in acc:
-            if m == n and w != v:
-                conflict[0] = True
         acc.add((n, v))
         if norec:
             return True
@@ -707,7 +801,8 @@ def closure(G_, name, ver, exact):
                 continue
             vr2, vx2 = spec_model(a["spec"])
             sub = set(acc)
-            if visit(a["name"], vr2, vx2, a["just"], sub):
+            # a line's -t tags go in front of the VRO in force, and stay in force for everything set up below it
+            if visit(a["name"], vr2, vx2, a["just"], sub, tuple(a.get("tags", [])) + tuple(ltags)):
                 acc |= sub
             elif not a["opt"]:
                 return False
@@ -737,9 +832,23 @@ def changed_for(G_, m, e0, e1):
     return False
 
 
-def check_request(G_, req, r, stats=None):
+def guarded_value(G_, owner, s):
+    """Is the string contributed by a line of the owner's table that sits inside an if (type == exact) / else block?"""
+    n, v = owner
+    for gd, a in G_.flat.get((n, v), []):
+        if gd == "always":
+            continue
+        if a["a"] == "prepend" and s in [x for _, x in G_.values(n, v, a)]:
+            return True
+        if a["a"] == "set" and G_.value(n, v, a) == s:
+            return True
+    return False
+
+
+def check_request(G_, req, r, stats=None, mixed=False):
     """Oracle (ii) for one request of a history: yields (property, clause, finding class | None, detail).
-    r is the raw result of run_history (before / after / outcome / cmds …)."""
+    r is the raw result of run_history (before / after / outcome / cmds …); mixed = the history so far holds
+    requests of both setup types (--inexact and not)."""
     cyc = G_.cyclic_names()
     e0 = canon_env(G_, r["before"])
     exact = not req["inexact"]
@@ -755,6 +864,8 @@ def check_request(G_, req, r, stats=None):
         yield ("C02", "failed_request_emits_nothing", None, "raised but cmds=%r" % (r["cmds"],))
     if r["outcome"] != "ok":
         return
+    if any(x.startswith("?") for x in r["shell_undefs"]):
+        yield ("C02", "commands_realise_environment", None, "unknown commands %r" % (r["shell_undefs"],))
     e1 = canon_env(G_, r["after"])
     es = canon_env(G_, r["shell"])
     if es != e1:
@@ -763,14 +874,18 @@ def check_request(G_, req, r, stats=None):
     if req["op"] == "setup":
         name = req["name"]
         # --- C01 (a) (b) (c): on priors that are themselves consistent -----------------------------
-        if env_ok(G_, e0, exact):
+        if not residue(G_, e0) and not bad_dirs(G_, e0):
             cnt("c01_prior_ok")
             for var, s, o in residue(G_, e1):
-                yield ("C01", "c_no_residue", "D17" if o[0] in cyc else None, "%s holds %s of %s %s; records %r" % (var, s, o[0], o[1], e1["recs"]))
-            for n, v, what in missing_contribs(G_, e1, exact):
-                yield ("C01", "b_contributions_present", "D17" if n in cyc else None, "%s %s: %s" % (n, v, what))
+                cls = "D17" if o[0] in cyc else ("D34" if mixed and guarded_value(G_, o, s) else None)
+                yield ("C01", "c_no_residue", cls, "%s holds %s of %s %s; records %r" % (var, s, o[0], o[1], e1["recs"]))
             for n, v in bad_dirs(G_, e1):
                 yield ("C01", "a_dir_is_declared_dir", "D17" if n in cyc else None, "%s %s: dir %r" % (n, v, e1["dirs"].get(n)))
+            # (b) speaks of the contributions under the setup type the products were set up with: evaluated
+            # while the history has used one type only
+            if not mixed and not missing_contribs(G_, e0, exact):
+                for n, v, what in missing_contribs(G_, e1, exact):
+                    yield ("C01", "b_contributions_present", "D17" if n in cyc else None, "%s %s: %s" % (n, v, what))
         else:
             cnt("c01_prior_not_ok")
         # --- C01 clause 4: explicit version --------------------------------------------------------
@@ -795,10 +910,12 @@ def check_request(G_, req, r, stats=None):
         if req["keep"]:
             cnt("c04_keep")
             for m, v in e0["recs"].items():
+                if (m, v) not in G_.decl:
+                    continue            # a record naming an undeclared version: eups cannot find it, nothing to keep
                 if m != name and e1["recs"].get(m) != v:
                     cls = None
                     oldv = e0["recs"].get(name)
-                    if oldv is not None and oldv != e1["recs"].get(name) and m in G_.reach_from(name, oldv):
+                    if oldv is not None and m in G_.reach_from(name, oldv):
                         cls = "D21"
                     yield ("C04", "keep", cls, "%s %s -> %r (request %s, was %r, now %r)" % (m, v, e1["recs"].get(m), name, oldv, e1["recs"].get(name)))
         # --- C04 (iii) depth -----------------------------------------------------------------------
@@ -814,7 +931,7 @@ def check_request(G_, req, r, stats=None):
     for m in G_.names:
         if m not in R and changed_for(G_, m, e0, e1):
             yield ("C04", "frame", None, "%s is not reachable from %s but changed" % (m, req["name"]))
-    lits = {G_.value(n, v, a) for (n, v) in G_.decl for _, a in G_.flat[(n, v)] if a["a"] == "prepend" and not a["own"]}
+    lits = {x for (n, v) in G_.decl for _, a in G_.flat[(n, v)] if a["a"] == "prepend" for o, x in G_.values(n, v, a) if not o}
     for var in G_.pathvars:
         f0 = [s for s in e0["paths"].get(var, []) if G_.owner(s) is None]
         f1 = [s for s in e1["paths"].get(var, []) if G_.owner(s) is None]
@@ -893,7 +1010,10 @@ def evaluate(ctx, pid, cases, stats, workers=6, extra=None):
                 stats["ok"] = stats.get("ok", 0) + 1
             if im.get("deep"):
                 continue
-            for prop, clause, cls, detail in check_request(G_, req, r, stats):
+            mixed = len({h["inexact"] for h in case["history"][:i + 1]}) > 1
+            if mixed:
+                ctx.hist("mixed_setup_types")
+            for prop, clause, cls, detail in check_request(G_, req, r, stats, mixed=mixed):
                 if prop != pid:
                     continue
                 ctx.hist("clause_failed=" + clause)
@@ -925,7 +1045,8 @@ def replay_case(ctx, pid, rp):
             continue
         if "before" not in r or impl[i].get("deep"):
             continue
-        for prop, clause, cls, detail in check_request(G_, req, r):
+        mixed = len({h["inexact"] for h in case["history"][:i + 1]}) > 1
+        for prop, clause, cls, detail in check_request(G_, req, r, mixed=mixed):
             if prop == pid:
                 fails.append({"step": i, "clause": clause, "class": cls, "detail": detail})
     return {"input": case, "impl_output": impl, "model_output": model,
@@ -956,7 +1077,7 @@ def contributed(G_, recs, exact):
                 if a["a"] == "set":
                     setv.add(a["var"])
                 elif a["a"] == "prepend":
-                    el.setdefault(a["var"], set()).add(G_.value(n, v, a))
+                    el.setdefault(a["var"], set()).update(x for _, x in G_.values(n, v, a))
     return setv, el
 
 
@@ -970,9 +1091,11 @@ def conflict_with_just(G_, name, exact):
                 if a["a"] == "dep":
                     vr, vx = spec_model(a["spec"])
                     w = want.setdefault(a["name"], [set(), False])
-                    w[0].add(designated(G_, a["name"], vr, vx))
+                    w[0].add(designated(G_, a["name"], vr, vx, line_tags=tuple(a.get("tags", []))))
                     w[1] = w[1] or a["just"]
-    return {x for x, (vs, j) in want.items() if j and len(vs - {None}) >= 2}
+    # "two different answers" includes "cannot be resolved": a -j line that fails at setup time still unwinds
+    # whatever version is set up when the table is replayed for unsetup
+    return {x for x, (vs, j) in want.items() if j and len(vs) >= 2}
 
 
 def roundtrip_oracle(G_, case, raw, impl, model, stats):
@@ -987,7 +1110,7 @@ def roundtrip_oracle(G_, case, raw, impl, model, stats):
         ra, rb = raw[i], raw[i + 1] if i + 1 < len(raw) else {}
         if ra.get("outcome") != "ok" or "before" not in rb:
             continue
-        if impl[i].get("deep") or impl[i + 1].get("deep"):
+        if i + 1 >= len(impl) or impl[i].get("deep") or impl[i + 1].get("deep"):
             continue
         e0, e1 = canon_env(G_, ra["before"]), canon_env(G_, ra["shell"])
         if any(n in e0["recs"] for n in e1["recs"] if e1["recs"][n] != e0["recs"].get(n)) or \
@@ -1000,8 +1123,15 @@ def roundtrip_oracle(G_, case, raw, impl, model, stats):
             continue
         stats["roundtrips"] = stats.get("roundtrips", 0) + 1
         x0, x2 = approx_env(G_, ra["before"]), approx_env(G_, rb["shell"])
-        new = {n: v for n, v in e1["recs"].items() if n not in e0["recs"]}
-        setv, el = contributed(G_, new, not a["inexact"])
+        # the closure, as for the theorems: every declared version of every name reachable from the request
+        # (a version set up and replaced during the request contributes too)
+        setv, el = set(), {}
+        for n in G_.reach([a["name"]]):
+            for v in G_.versions(n):
+                sv, e_ = contributed(G_, {n: v}, not a["inexact"])
+                setv |= sv
+                for k_, x_ in e_.items():
+                    el.setdefault(k_, set()).update(x_)
         e2 = canon_env(G_, rb["shell"])
         left_recs = {n for n in e2["recs"] if n not in e0["recs"]}
         cj = conflict_with_just(G_, a["name"], not a["inexact"])
